@@ -712,7 +712,7 @@ func init() {
 		register(p, func(r *Result, rng *rand.Rand, tier string) {
 			n := map[string]int{"quick": 220, "thorough": 4000, "search": 2500}[tier]
 			if p == "C09" {
-				n = map[string]int{"quick": 400, "thorough": 5000, "search": 2500}[tier]
+				n = map[string]int{"quick": 300, "thorough": 5000, "search": 2500}[tier]
 			}
 			if p == "C08" {
 				n = map[string]int{"quick": 400, "thorough": 5000, "search": 2500}[tier]
